@@ -57,7 +57,13 @@ type CompleteMultipartUploadRequest struct {
 }
 
 func (c CompleteMultipartUploadRequest) partsAreSorted() bool {
-	return sort.IntsAreSorted(c.partIDs())
+	// partIDs() returns a sorted copy, which is trivially sorted; the order
+	// that matters is the one the client sent.
+	inParts := make([]int, 0, len(c.Parts))
+	for _, inputPart := range c.Parts {
+		inParts = append(inParts, inputPart.PartNumber)
+	}
+	return sort.IntsAreSorted(inParts)
 }
 
 func (c CompleteMultipartUploadRequest) partIDs() []int {
